@@ -51,7 +51,7 @@ def gen(pid, outdir):
             t += "From PK Require Import Base.Outcome Base.Finite Gen.Types Impl Spec.Known%s %s Check.Lay %sCheck.%s Enc.\n" % (chart, imp, 'Check.C16 ' if pid == 'C15' else '', pid)
             t += "Import ListNotations.\nNotation LI := %s_lay.\n" % inst
             t += "(* witness: layout index, key, modifier bits, mode; actual = what the layout returns there *)\n"
-            t += 'Eval vm_compute in ("cex"%%string, map (fun c : cell => let \'(l, k, m, hc) := c in (enc_cell c, %s, enc_dk (lay_map LI l k m hc))) (firstn 60 (%s LI))).\n' % (c.get('expected', '([] : list N)'), c['cex'])
+            t += 'Eval vm_compute in ("cex"%%string, map (fun c : cell => let \'(l, k, m, hc) := c in (enc_cell c, %s, enc_dk (lay_map LI l k m hc))) (firstn 80 (per_key (%s LI)))).\n' % (c.get('expected', '([] : list N)'), c['cex'])
             t += 'Eval vm_compute in ("failing_cells"%%string, N.of_nat (List.length (%s LI))).\n' % c['cex']
             open('%s/Cex/%s_%s.v' % (outdir, pid, inst), 'w').write(t)
 if __name__ == '__main__':
